@@ -143,6 +143,19 @@ func perform(op *chanOp, desc string) (int, any, bool) {
 	t := cur
 	op.t = t
 	t.pend = op
+	res := make([]uintptr, 0, len(op.cases)+1)
+	for _, c := range op.cases {
+		if c.s != nil {
+			res = append(res, uintptr(unsafe.Pointer(c.s)))
+			if c.dir == dirRecv {
+				res = append(res, ResCtx) // a receive may be on a channel closed by un-instrumented code (ctx.Done())
+			}
+		}
+	}
+	if len(res) == 0 {
+		res = append(res, ResHarness)
+	}
+	pendingRes = res
 	point(op.enabled, desc)
 	t.pend = nil
 	if op.done { // completed by a rendezvous partner
@@ -165,6 +178,16 @@ func perform(op *chanOp, desc string) (int, any, bool) {
 		i = ready[Choose(len(ready), "select-ready")]
 	}
 	c := op.cases[i]
+	// A non-blocking operation (select with default) on an UNBUFFERED channel succeeds in real Go only if
+	// the partner is already parked; a partner whose pending operation has not executed yet may in reality
+	// not have arrived. The default answer is the rendezvous; "partner not there yet" (take the default
+	// branch) is an environment deviation. This is what makes lost wake-ups of the form
+	// `select { case ch <- v: default: }` with an unbuffered ch reachable.
+	if op.hasDefault && c.s.cap == 0 && !c.s.closed && len(c.s.q) == 0 && !(c.dir == dirRecv && c.peek()) {
+		if Choose(2, "non-blocking rendezvous: partner not parked yet") == 1 {
+			return -1, nil, false
+		}
+	}
 	if c.dir == dirRecv {
 		if len(c.s.q) > 0 {
 			v := c.s.q[0]
@@ -188,6 +211,18 @@ func perform(op *chanOp, desc string) (int, any, bool) {
 		panic("send on closed channel")
 	}
 	if c.s.cap > 0 {
+		// A receiver whose pending operation is a receive on this (empty) channel is, in real Go, either
+		// already parked (the send is handed to it directly and the buffer stays empty) or has not quite
+		// arrived yet (the value is buffered). Both are real timings; buffering is the default answer, the
+		// direct hand-off an environment deviation. They differ only for code that looks at the buffer
+		// (a non-blocking send) before the receiver runs.
+		if len(c.s.q) == 0 {
+			if ps, idx := partners(op, c.s, dirRecv); len(ps) > 0 && Choose(2, "buffered send: receiver already parked") == 1 {
+				p := ps[0]
+				p.done, p.idx, p.val, p.ok = true, idx[0], c.val, true
+				return i, nil, false
+			}
+		}
 		c.s.q = append(c.s.q, c.val)
 		return i, nil, false
 	}
@@ -250,6 +285,7 @@ func Close[T any](ch chan<- T) {
 	}
 	key := *(*unsafe.Pointer)(unsafe.Pointer(&ch))
 	s := stateOf(key, cap(ch))
+	pendingRes = []uintptr{uintptr(unsafe.Pointer(s))}
 	point(nil, "chan close")
 	if s.closed {
 		panic("close of closed channel")
